@@ -188,6 +188,7 @@ def _innermost_emmet_frame(tb):
 
 
 _CACHES = {}
+_RANDOM_CFGS = {}
 
 
 def _with_cache(cfg):
@@ -250,12 +251,18 @@ def check_expand(abbr, cfg):
 def scan(abbr, typ, which, seed):
     """worker-side: one abbreviation against a whole configuration list -> (n_calls, [(class, abbr, cfg, detail)])"""
     if which.startswith('random:'):
-        cfgs = random_configs(typ, seed, int(which.split(':')[1]))
+        k = (typ, seed, which)
+        if k not in _RANDOM_CFGS:
+            _RANDOM_CFGS[k] = random_configs(typ, seed, int(which.split(':')[1]))
+        cfgs = _RANDOM_CFGS[k]
         # a long random string gets 3 of the random configurations, chosen by its own content (deterministic)
         r = random.Random('%s|%d' % (abbr, seed))
         cfgs = r.sample(cfgs, 3)
     else:
-        cfgs = configs(typ, which)
+        k = (typ, which)
+        if k not in _RANDOM_CFGS:
+            _RANDOM_CFGS[k] = configs(typ, which)
+        cfgs = _RANDOM_CFGS[k]
     out = []
     for cfg in cfgs:
         nocache = which == 'nocache'
@@ -288,37 +295,41 @@ def _worker(job):
 
 
 def drive(clause, typ, which, abbrs, seed=0, chunk=400):
-    """run `scan` over abbreviations on the process pool; record at most PER_CLASS shortest inputs per class"""
+    """run `scan` over abbreviations on the process pool; per classification report the PER_CLASS shortest distinct
+    abbreviations (ties: alphabetical), each with its simplest failing configuration (shortest JSON)"""
     import multiprocessing as mp
-    classes = {}
+    classes = {}      # class -> {abbr: (len(cfg json), cfg json, detail)}
     counts = {}
+
+    def sampled(it):
+        for i, a in enumerate(it):
+            if len(clause.samples) < 4 and i % 97 == 50:
+                clause.samples.append(a)
+            yield a
+
     with mp.Pool(NPROC) as pool:
-        jobs = ((typ, which, seed, c) for c in chunked(abbrs, chunk))
+        jobs = ((typ, which, seed, c) for c in chunked(sampled(abbrs), chunk))
         for n, hashes, found in pool.imap_unordered(_worker, jobs):
             clause.evaluations += n
             clause.distinct.update(hashes)
             for cls, abbr, cfg, detail in found:
                 counts[cls] = counts.get(cls, 0) + 1
-                lst = classes.setdefault(cls, [])
-                lst.append((len(abbr), abbr, json.dumps(cfg, sort_keys=True), detail))
-                if len(lst) > 64:
-                    lst.sort()
-                    del lst[PER_CLASS:]
+                per = classes.setdefault(cls, {})
+                cj = json.dumps(cfg, sort_keys=True)
+                cand = (len(cj), cj, detail)
+                if abbr not in per or cand < per[abbr]:
+                    per[abbr] = cand
     rows = []
     for cls in sorted(classes):
-        lst = sorted(classes[cls])[:PER_CLASS]
-        for rank, (_, abbr, cfgs, detail) in enumerate(lst):
-            rows.append((rank, cls, abbr, cfgs, detail))
+        per = classes[cls]
+        for rank, abbr in enumerate(sorted(per, key=lambda x: (len(x), x))[:PER_CLASS]):
+            rows.append((rank, cls, abbr, per[abbr][1], per[abbr][2], len(per)))
     rows.sort()          # round robin: the shortest input of every class first
-    for rank, cls, abbr, cfgs, detail in rows:
-        cfg = json.loads(cfgs)
-        args = [abbr, cfg]
-        what = '%s: expand(%r, %s) %s [%d failing (input, configuration) pairs of this class in this clause]' % (
-            cls, abbr, cfgs, detail, counts[cls])
+    for rank, cls, abbr, cj, detail, n_abbr in rows:
+        args = [abbr, json.loads(cj)]
+        what = '%s: expand(%r, %s) %s [this classification: %d failing abbreviations, %d failing (abbreviation, configuration) pairs in this clause]' % (
+            cls, abbr, cj, detail, n_abbr, counts[cls])
         clause.violation(json.dumps(args, ensure_ascii=True, sort_keys=True), what, 'bounded.c07:check_expand', args)
-    if len(clause.samples) < 4:
-        clause.samples.extend(list(itertools.islice((a for a in abbrs if len(a) > 1), 4 - len(clause.samples)))
-                              if isinstance(abbrs, list) else [])
     return clause
 
 
@@ -356,7 +367,7 @@ def mutations(corpus, alpha):
 
 
 def random_strings(alpha, corpus, seed, n, typ):
-    """seeded strings beyond the exhaustive bound: length 5..12 over the mutation alphabet (no two adjacent digits, so
+    """seeded strings beyond the exhaustive bound: length 5..12 over the mutation alphabet (markup: no two adjacent digits, so
     that repeat counts stay below 10 and no call is slow by design), and splices of two corpus entries"""
     rnd = random.Random('c07-rs-%s-%d' % (typ, seed))
     seen = set()
@@ -366,7 +377,7 @@ def random_strings(alpha, corpus, seed, n, typ):
             s = []
             for _ in range(k):
                 ch = rnd.choice(alpha)
-                while s and ch.isdigit() and s[-1].isdigit():
+                while typ == 'markup' and s and ch.isdigit() and s[-1].isdigit():
                     ch = rnd.choice(alpha)
                 s.append(ch)
             s = ''.join(s)
@@ -415,6 +426,11 @@ def run(tier, seed):
            % (ALPHA_MARKUP if quick else MUT_MARKUP, len(CORPUS_MARKUP)),
            'all single-character mutations x %d configurations' % (2 if quick else 4),
            'markup', 'two' if quick else 'core', list(mutations(CORPUS_MARKUP, ALPHA_MARKUP if quick else MUT_MARKUP)), True, chunk=800)
+    from emmet.snippets import markup_snippets, xsl_snippets, pug_snippets, stylesheet_snippets
+    names = sorted(set(markup_snippets) | set(xsl_snippets) | set(pug_snippets))
+    clause('markup-snippet-names', 'every built-in markup snippet name (html, xsl, pug tables of the tree under check)',
+           '%d names x %d syntaxes x %d option sets (every combination)' % (len(names), len(MARKUP_SYNTAXES), len(MARKUP_POOL)),
+           'markup', 'full', names, True, chunk=8)
     n_rand = 20000 if quick else 300000
     clause('markup-random', 'seeded random strings of length 5..12 over %r and splices of two corpus entries' % MUT_MARKUP,
            '%d strings x 3 of 40 seeded random configurations (syntax, text, options, context, maxRepeat)' % n_rand,
@@ -436,6 +452,10 @@ def run(tier, seed):
            'all prefixes and mutations x %s' % ('3 configurations' if quick else 'every syntax x every option set'),
            'stylesheet', 'core' if quick else 'full',
            list(prefixes(CORPUS_STYLESHEET)) + [m for m in mutations(CORPUS_STYLESHEET, MUT_STYLE)], True, chunk=400)
+    names = sorted(stylesheet_snippets)
+    clause('stylesheet-snippet-keys', 'every built-in stylesheet snippet key, alone and followed by `1`, `-a`, `:e` and `!`',
+           '%d keys x 5 forms x %d syntaxes x %d option sets (every combination)' % (len(names), len(STYLE_SYNTAXES), len(STYLE_POOL)),
+           'stylesheet', 'full', [k + suf for k in names for suf in ('', '1', '-a', ':e', '!')], True, chunk=40)
     n_rand = 15000 if quick else 200000
     clause('stylesheet-random', 'seeded random strings of length 5..12 over %r and splices of two corpus entries' % MUT_STYLE,
            '%d strings x 3 of 40 seeded random configurations (syntax, options, context, snippets)' % n_rand,
